@@ -691,6 +691,10 @@ public:
 			_ref.set_instance(c);
 			return false;
 		}
+		/* a private copy keeps all elements */
+		if (len < c->length()) {
+			len = c->length();
+		}
 		content<T> *n;
 		if ((n = c->detach(len * sizeof(T)))) {
 			_ref.set_instance(n);
